@@ -54,6 +54,14 @@ def make_qkeras(ip, s, pfx, kind, mv_kind=None, alpha=None):
       mv = None
       mvv = None
       c = None
+    elif mv_kind.startswith("v"):
+      # a concrete max_value that is NOT a power of two (e.g. "v3", "v6", "v1p5"): the quantizer clips to it and then
+      # rounds log2, so the largest emitted exponent is rnd(log2(max_value))
+      import math
+      mvf = float(mv_kind[1:].replace("p", "."))
+      mvv = mvf
+      mv = zreal(mvf)
+      c = z3.IntVal(int(math.floor(math.log2(mvf) + 0.5)))
     else:
       # max_value is a power of two 2^c (the documented use; C03 quantifies over {None, 2^k})
       c = z3.Int(pfx + "_mvexp")
@@ -66,7 +74,8 @@ def make_qkeras(ip, s, pfx, kind, mv_kind=None, alpha=None):
       mvv = SNum(mv, "float")
     name = "quantized_po2" if kind == "po2" else "quantized_relu_po2"
     q = ip.call(_cls(ip, QZ, name), [SNum(bits), mvv], {})
-    emin, emax, eff = S.po2_exponent_interval(bits, sg, 0 if mv_kind == "le1" else 1)
+    need = 0 if (mv_kind == "le1" or (mv_kind or "").startswith("v") and float(mv_kind[1:].replace("p", ".")) <= 1) else 1
+    emin, emax, eff = S.po2_exponent_interval(bits, sg, need)
     # value set: exponents the qkeras quantizer can emit; upper limit from max_value
     if mv is not None:
       emax = z3.If(c < emax, c, emax)
